@@ -5,14 +5,24 @@ package oracle
 // of every literal of C reaches a conflict. Clauses are literal *sets*:
 // duplicate literals are dropped and tautologies are ignored (they can neither
 // propagate nor conflict).
+//
+// Implementation: counter-based propagation over occurrence lists. The facts that
+// unit propagation derives from the database alone are kept assigned permanently
+// ("base" assignment), so that a check only touches the clauses that hold a
+// literal it assigns. This keeps the replay of traces with thousands of long
+// clauses (hundreds to thousands of literals each) fast. oracle/rup_test.go
+// cross-checks it against the definition executed the slow way.
 
-// RUP is a clause database with occurrence lists.
+// RUP is a clause database.
 type RUP struct {
-	n      int
-	cls    [][]int
-	occ    [][]int // occ[idx(l)] = clauses containing literal l
-	assign []int8
-	empty  bool // the database contains the empty clause
+	n       int
+	cls     [][]int
+	occ     [][]int32 // occ[idx(l)] = ids of the clauses containing literal l
+	val     []int8    // by variable: 0 unassigned, 1 true, -1 false
+	nTrue   []int32
+	nFalse  []int32
+	trail   []int // literals made true, in order
+	refuted bool  // unit propagation on the database alone reaches a conflict
 }
 
 func idx(l int) int {
@@ -24,7 +34,7 @@ func idx(l int) int {
 
 // NewRUP creates a database over variables 1..n holding the given clauses.
 func NewRUP(n int, cls [][]int) *RUP {
-	r := &RUP{n: n, occ: make([][]int, 2*n+2), assign: make([]int8, n+1)}
+	r := &RUP{n: n, occ: make([][]int32, 2*n+2), val: make([]int8, n+1)}
 	for _, c := range cls {
 		r.Add(c)
 	}
@@ -32,7 +42,24 @@ func NewRUP(n int, cls [][]int) *RUP {
 }
 
 func normalise(c []int) (out []int, taut bool) {
-	seen := map[int]bool{}
+	if len(c) <= 8 {
+		for i, l := range c {
+			dup := false
+			for _, m := range c[:i] {
+				if m == -l {
+					return nil, true
+				}
+				if m == l {
+					dup = true
+				}
+			}
+			if !dup {
+				out = append(out, l)
+			}
+		}
+		return out, false
+	}
+	seen := make(map[int]bool, len(c))
 	for _, l := range c {
 		if seen[-l] {
 			return nil, true
@@ -45,14 +72,95 @@ func normalise(c []int) (out []int, taut bool) {
 	return out, false
 }
 
+func (r *RUP) grow(n int) {
+	for r.n < n {
+		r.n++
+		r.occ = append(r.occ, nil, nil)
+		r.val = append(r.val, 0)
+	}
+}
+
+func (r *RUP) value(l int) int8 {
+	if l > 0 {
+		return r.val[l]
+	}
+	return -r.val[-l]
+}
+
+// assign makes l true and updates the counters; it collects the literals that became
+// forced and reports whether some clause became falsified. All counters are always
+// updated, so that undo is exact.
+func (r *RUP) assign(l int, forced *[]int) (conflict bool) {
+	if l > 0 {
+		r.val[l] = 1
+	} else {
+		r.val[-l] = -1
+	}
+	r.trail = append(r.trail, l)
+	for _, id := range r.occ[idx(l)] {
+		r.nTrue[id]++
+	}
+	for _, id := range r.occ[idx(-l)] {
+		r.nFalse[id]++
+		if r.nTrue[id] != 0 {
+			continue
+		}
+		c := r.cls[id]
+		switch int(r.nFalse[id]) {
+		case len(c):
+			conflict = true
+		case len(c) - 1:
+			for _, u := range c {
+				if r.value(u) == 0 {
+					*forced = append(*forced, u)
+					break
+				}
+			}
+		}
+	}
+	return conflict
+}
+
+func (r *RUP) undoTo(mark int) {
+	for len(r.trail) > mark {
+		l := r.trail[len(r.trail)-1]
+		r.trail = r.trail[:len(r.trail)-1]
+		for _, id := range r.occ[idx(l)] {
+			r.nTrue[id]--
+		}
+		for _, id := range r.occ[idx(-l)] {
+			r.nFalse[id]--
+		}
+		if l > 0 {
+			r.val[l] = 0
+		} else {
+			r.val[-l] = 0
+		}
+	}
+}
+
+// propagate assigns the queued literals and everything they force; true on conflict.
+func (r *RUP) propagate(queue []int) bool {
+	for len(queue) > 0 {
+		l := queue[0]
+		queue = queue[1:]
+		switch r.value(l) {
+		case 1:
+			continue
+		case -1:
+			return true
+		}
+		if r.assign(l, &queue) {
+			return true
+		}
+	}
+	return false
+}
+
 // Add appends a clause to the database (without checking it).
 func (r *RUP) Add(c []int) {
 	nc, taut := normalise(c)
-	if taut {
-		return
-	}
-	if len(nc) == 0 {
-		r.empty = true
+	if taut || r.refuted {
 		return
 	}
 	for _, l := range nc {
@@ -64,41 +172,39 @@ func (r *RUP) Add(c []int) {
 			r.grow(v)
 		}
 	}
-	id := len(r.cls)
+	id := int32(len(r.cls))
 	r.cls = append(r.cls, nc)
+	var nt, nf int32
+	unit := 0
 	for _, l := range nc {
 		r.occ[idx(l)] = append(r.occ[idx(l)], id)
+		switch r.value(l) {
+		case 1:
+			nt++
+		case -1:
+			nf++
+		default:
+			unit = l
+		}
 	}
-}
-
-func (r *RUP) grow(n int) {
-	for r.n < n {
-		r.n++
-		r.occ = append(r.occ, nil, nil)
-		r.assign = append(r.assign, 0)
+	r.nTrue = append(r.nTrue, nt)
+	r.nFalse = append(r.nFalse, nf)
+	if nt > 0 {
+		return
 	}
-}
-
-func (r *RUP) val(l int) int8 {
-	if l > 0 {
-		return r.assign[l]
-	}
-	return -r.assign[-l]
-}
-
-func (r *RUP) set(l int, trail *[]int) {
-	if l > 0 {
-		r.assign[l] = 1
-		*trail = append(*trail, l)
-	} else {
-		r.assign[-l] = -1
-		*trail = append(*trail, -l)
+	switch int(nf) {
+	case len(nc): // falsified by the facts (this includes the empty clause)
+		r.refuted = true
+	case len(nc) - 1: // a new fact
+		if r.propagate([]int{unit}) {
+			r.refuted = true
+		}
 	}
 }
 
 // Check reports whether clause c is RUP with respect to the current database.
 func (r *RUP) Check(c []int) bool {
-	if r.empty {
+	if r.refuted {
 		return true
 	}
 	nc, taut := normalise(c)
@@ -114,70 +220,18 @@ func (r *RUP) Check(c []int) bool {
 			r.grow(v)
 		}
 	}
-	var trail []int // variables assigned
-	defer func() {
-		for _, v := range trail {
-			r.assign[v] = 0
-		}
-	}()
-	var queue []int // literals made true, to propagate
+	mark := len(r.trail)
+	defer r.undoTo(mark)
+	var queue []int
 	for _, l := range nc {
-		// assign ¬l
-		switch r.val(-l) {
-		case 0:
-			r.set(-l, &trail)
-			queue = append(queue, -l)
-		case -1:
-			return true // cannot happen after normalisation, kept for safety
-		}
-	}
-	// initial scan: unit / empty clauses of the database under the assumption
-	for id := range r.cls {
-		if u, st := r.status(id); st == 0 {
-			return true
-		} else if st == 1 {
-			if r.val(u) == 0 {
-				r.set(u, &trail)
-				queue = append(queue, u)
-			}
-		}
-	}
-	for len(queue) > 0 {
-		l := queue[0]
-		queue = queue[1:]
-		for _, id := range r.occ[idx(-l)] {
-			u, st := r.status(id)
-			if st == 0 {
-				return true
-			}
-			if st == 1 && r.val(u) == 0 {
-				r.set(u, &trail)
-				queue = append(queue, u)
-			}
-		}
-	}
-	return false
-}
-
-// status returns (unit literal, state) where state is 0 = falsified, 1 = unit, 2 = satisfied or open.
-func (r *RUP) status(id int) (int, int) {
-	un, last := 0, 0
-	for _, l := range r.cls[id] {
-		switch r.val(l) {
+		switch r.value(l) {
 		case 1:
-			return 0, 2
+			return true // l is a fact: asserting its negation conflicts at once
 		case 0:
-			un++
-			last = l
-			if un > 1 {
-				return 0, 2
-			}
+			queue = append(queue, -l)
 		}
 	}
-	if un == 0 {
-		return 0, 0
-	}
-	return last, 1
+	return r.propagate(queue)
 }
 
 // CheckTrace replays a whole trace: every line must be RUP w.r.t. the formula plus
